@@ -416,3 +416,48 @@ def run(prog, chk):
                   "(size, capacity of a list) at 0 on every exit: a cleaned object that is kept is an empty list", primary=False, floor=2)
     if memrules.clean_resets_bounds(prog, r9) < 2:
         raise Broken("no counter bounding a block released by a *_clean helper found (expected the list's size and capacity)")
+    element_identity_rule(prog, chk)
+
+
+# who may replace or release the object in a list's element slot: insertion (shifts and stores the clone), removal, tear-down
+# and the deserialiser that builds a fresh list.  cif.h: a set "is copied onto" the existing element and "will be visible to
+# code that holds a reference to the value" - so cif_value_set_element_at is deliberately absent.
+ELEMENT_SLOT_WRITERS = {
+    "cif_value_insert_element_at": "shifts the tail and stores the clone of the new element",
+    "cif_value_remove_element_at": "releases the removed element and shifts the tail",
+    "cif_list_value_clean": "tear-down",
+    "cif_list_deserialize": "builds a fresh list",
+    "cif_value_clone_list": "builds a fresh list",
+}
+
+
+def element_identity_rule(prog, chk):
+    r10 = chk.rule("R10-element-objects-keep-their-identity", "only insertion, removal, tear-down and the builders of fresh lists store into "
+                   "a list's element slot or release an element object; a set copies onto the existing element, so references "
+                   "handed out by cif_value_get_element_at stay valid and see the new content", floor=4)
+    n = 0
+    for fn in prog.all_functions():
+        if fn.unit != "value.c":
+            continue
+        acts = []
+        for (b, i, r, x) in fn.eval_sites("asg"):
+            l = strip(x.get("lhs"))
+            if isinstance(l, dict) and l.get("k") == "index" and (path(strip(l.get("base"))) or "").endswith("elements"):
+                acts.append((x, "stores into an element slot"))
+        for (b, i, r, c) in fn.calls():
+            if c.get("callee") in ("cif_value_free", "free") and c.get("args"):
+                a = strip(c["args"][0])
+                if isinstance(a, dict) and a.get("k") == "index" and (path(strip(a.get("base"))) or "").endswith("elements"):
+                    acts.append((c, "releases an element object"))
+        if not acts:
+            continue
+        n += 1
+        if fn.name in ELEMENT_SLOT_WRITERS:
+            r10.ok(fn.name, "%d slot stores / releases: %s" % (len(acts), ELEMENT_SLOT_WRITERS[fn.name]))
+        else:
+            x, what = acts[0]
+            r10.violation(fn.file, fn.name, x.get("l"), "element-slot-written:%s" % fn.name,
+                          "%s %s (`%s`): the element object at that index is replaced or released, so a reference obtained earlier "
+                          "from cif_value_get_element_at dangles instead of seeing the new content" % (fn.name, what, show(x)[:50]))
+    if n < 4:
+        raise Broken("fewer than 4 functions writing list element slots found")
